@@ -20,7 +20,7 @@ CLAIMS = {
  "C08": ("zero-tail theorems through both slack strategies (memset > 0x20, byte loop) for strcpy/strncpy/strcat/wcscpy; result length x dmax sweep across the 0x20 switch with dirty buffers", "Lean 4 zero-fill lemmas + dirty-buffer sweep"),
  "C09": ("the engine's directive parser proved to reject every format in which libc's printf grammar finds an n conversion (all strings, by induction); pre-scan soundness for the 21 libc-delegating entry points proved under two syntactic hypotheses, with kernel-decided witnesses for the general failure; all 28 entry points executed with sentinel-address varargs against the models and plain glibc", "Lean 4 induction over format strings + sentinel-vararg correspondence"),
  "C10": ("answers of strnlen/wcsnlen, memchr/memrchr, memcmp/wmemcmp, strspn/strcspn proved equal to the standard function's answer computed from the memory contents restricted to dmax, for all contents, lengths and bounds; strcmp_s characterised exactly (partial theorem + kernel-checked witnesses for the signed-char and read-at-dmax defects); every query model proved store-free, hence operands never modified on any input; all 60 query entry points run against reference answers over the small-alphabet scope", "Lean 4 refinement to pure specs + NoStore meta-theorem + differential reference"),
- "C14": ("one tokenizer call characterised completely as a function of the memory contents (token start/end, returned pointer, *ptr, *dmaxp, the single overwritten delimiter) for all strings, lengths and delimiter sets of 1..16 characters; corollaries: *ptr + *dmaxp is conserved (never beyond the original dmax), token shape, only a delimiter cell is overwritten, NULL forever once the continuation rests on the terminator; call sequences run against a reference tokenizer", "Lean 4 loop lemmas + invariants over call sequences + sequence correspondence"),
+ "C14": ("one tokenizer call characterised completely as a function of the memory contents (token start/end, returned pointer, *ptr, *dmaxp, the single overwritten delimiter) for all strings, lengths and delimiter sets of 1..16 characters; corollaries: *ptr + *dmaxp is conserved (never beyond the original dmax), token shape, only a delimiter cell is overwritten; whole call sequences (any number of calls threading *ptr/*dmaxp) proved to return exactly the maximal delimiter-free runs of the ORIGINAL string in order, each once, then NULL forever (loop invariant + soundness/completeness of the run list); call sequences run against a reference tokenizer", "Lean 4 loop lemmas + invariants over call sequences + sequence correspondence"),
  "C12": ("schedule-independent theorem: two calls with disjoint footprints under ANY interleaving equal the calls run alone, footprints derived from the no-stray theorems (strcpy_s instance), witness for the shared-scratch defect class; the library's writable segments are snapshotted around every representative call and must be bit-identical, N-thread stress as the failing-schedule search", "Lean 4 interleaving theorem + static-segment snapshots + thread stress"),
  "C19": ("results of timingsafe_bcmp/memcmp proved against the unsigned first-difference spec, and the source-level trace (addresses + branch decisions) proved independent of the contents for every n; valgrind-lackey traces of the compiled function compared across contents as an assumption validator", "Lean 4 induction (Int32 arithmetic, trace observer) + lackey trace comparison"),
  "C13": ("the registration state machine proved for every history (dispatch rule, returns-previous, NULL selects default, kind independence, thread isolation, fresh threads); histories executed with real pthreads", "Lean 4 induction over registration histories + pthread correspondence"),
